@@ -395,7 +395,7 @@ func TestVerif_C20_SplitCombine(t *testing.T) {
 // not constant and pass a loose (6 sigma) chi-square uniformity test.
 func TestVerif_C20_Randomness(t *testing.T) {
 	seed := kit.Seed(20)
-	r := kit.NewResult(t, "c20-randomness", seed, "statistical monitor: 25600 single-byte 2-of-2 splits of a fixed secret; the non-constant coefficient c1=(y-s)/x recovered from each split must pass a chi-square uniformity test at 6 sigma (x coordinates are only reported); each split is a case, distinct recovered (c1,x) values are counted")
+	r := kit.NewResult(t, "c20-randomness", seed, "statistical monitor: 25600 single-byte 2-of-2 splits of a fixed secret; the non-constant coefficient c1=(y-s)/x recovered from each split must pass a chi-square uniformity test at 6 sigma (x coordinates are only reported); and the polynomials of two bytes of one 4-byte secret must agree only at the chance rate 256^-(t-1) for t=2,3; each split is a case, distinct recovered (c1,x) values are counted")
 	defer r.Write(t)
 	const N = 25600
 	var hc [256]int
@@ -434,5 +434,43 @@ func TestVerif_C20_Randomness(t *testing.T) {
 	r.Note("x of first share: chi2=%.1f over 1..255, count of x=1: %d (not a verdict)", cx, hx[1])
 	if hx[0] != 0 {
 		r.Violate("C20-x-coordinate", "", "x=0 handed out", nil)
+	}
+
+	// Independence across the bytes of one secret: each byte must get its own polynomial. With the
+	// secret known, g_i(x) = y_i(x) xor s_i is the non-constant part of byte i's polynomial at the
+	// share's x; for independent polynomials g_0 and g_1 agree on all n shares with probability
+	// 256^-(t-1). (A Split that reuses one polynomial for every byte reconstructs perfectly and keeps
+	// every other check green, but one share then reveals s_i xor s_j.)
+	for _, th := range []int{2, 3} {
+		secret := []byte{0x11, 0xa7, 0x3c, 0xe0}
+		same := 0
+		for i := 0; i < N; i++ {
+			sh, err := Split(secret, th, th)
+			if err != nil {
+				t.Fatal(err)
+			}
+			eq := true
+			for _, share := range sh {
+				if share[0]^secret[0] != share[1]^secret[1] {
+					eq = false
+					break
+				}
+			}
+			if eq {
+				same++
+			}
+			r.Eval(1)
+		}
+		r.Count(fmt.Sprintf("cross_byte_equal_polynomials_t%d", th), same)
+		switch th {
+		case 2: // expected N/256 = 100, sigma ~ 10
+			if same > 160 || same < 40 {
+				r.Violate("C20-cross-byte-dependence", "", fmt.Sprintf("t=2: polynomials of byte 0 and byte 1 of one secret agreed in %d of %d splits (expected about %d)", same, N, N/256), nil)
+			}
+		case 3: // expected N/65536 < 1
+			if same > 10 {
+				r.Violate("C20-cross-byte-dependence", "", fmt.Sprintf("t=3: polynomials of byte 0 and byte 1 of one secret agreed in %d of %d splits (expected < 1)", same, N), nil)
+			}
+		}
 	}
 }
